@@ -1,6 +1,9 @@
 package props
 
 import (
+	"fmt"
+	"sync"
+
 	"github.com/pion/stun/v3"
 	"github.com/pion/stun/v3/verifharness/core"
 	"github.com/pion/stun/v3/verifharness/gen"
@@ -59,4 +62,39 @@ func c19(c *core.Ctx) {
 		}
 	})
 	c.MarkExhaustive("readvalue")
+	// the same tables from several goroutines at once (each with its own MessageType values): the mapping is a pure function
+	c.SectionSerial("concurrent-sweep", 4, func(i int64, _ *gen.Rand) {
+		const g = 8
+		bad := make([]string, g)
+		var wg sync.WaitGroup
+		for k := 0; k < g; k++ {
+			wg.Add(1)
+			go func(k int) {
+				defer wg.Done()
+				for round := 0; round < 4 && bad[k] == ""; round++ {
+					for x := 0; x < 65536 && bad[k] == ""; x++ {
+						v := uint16(x*(2*k+1) + int(i)*7919) // every goroutine walks the domain in its own order
+						var t stun.MessageType
+						t.ReadValue(v)
+						m, cl := ref.SplitType(v)
+						if uint16(t.Method) != m || uint8(t.Class) != cl {
+							bad[k] = fmt.Sprintf("ReadValue(%#04x) = (%#x,%d), reference (%#x,%d)", v, uint16(t.Method), t.Class, m, cl)
+						} else if got := t.Value(); got != v&0x3fff {
+							bad[k] = fmt.Sprintf("Value() after ReadValue(%#04x) = %#04x", v, got)
+						}
+					}
+				}
+			}(k)
+		}
+		wg.Wait()
+		c.Eval(g * 4 * 65536)
+		c.Count("concurrent_decodes", g*4*65536)
+		for _, b := range bad {
+			if b != "" {
+				c.Violate("concurrent-mismatch", "concurrent-mismatch", b)
+
+				return
+			}
+		}
+	})
 }
